@@ -401,3 +401,304 @@ def stop_point_limit_rules(c, P):
         c.ob(f'{P}.stop-limit', c.key(s.node, ssp) + ' lowered to the stop '
              'point', norm(s.value) == 'stop_point', c.where(s.node, ssp), '')
     del AnyOf
+
+
+def pool_cache_rules(c, rule):
+    """TaskPool.get_tasks() serves a cached list that is rebuilt only when
+    `active_tasks_changed` is set.  Everything that scans the pool (stall
+    detection, runahead base point, the pool-wide future offset, release
+    loops) sees the true membership only if every change of membership of
+    `active_tasks` sets the flag *before* any method that reads the cached
+    list is called."""
+    import ast
+    from sa import pat as _pat
+    from sa.cfg import stmt_has
+    from sa.core import norm
+    TP = 'task_pool'
+    cls = c.idx.cls('TaskPool', TP)
+
+    def self_call(n):
+        return isinstance(n, ast.Call) and isinstance(
+            n.func, ast.Attribute) and isinstance(
+            n.func.value, ast.Name) and n.func.value.id == 'self'
+    readers = {'get_tasks'}
+    grew = True
+    while grew:
+        grew = False
+        for name, f in cls.methods.items():
+            if name in readers:
+                continue
+            if any(self_call(n) and n.func.attr in readers
+                   for n in c.idx.walk(f.node)):
+                readers.add(name)
+                grew = True
+    c.floor(rule, 'TaskPool methods that read the cached task list '
+            '(closure over self.<m>() of get_tasks)', len(readers), 8)
+    gt = c.func(TP, 'TaskPool.get_tasks')
+    rebuild = [n for n in c.idx.walk(gt.node) if isinstance(n, ast.Assign)
+               and norm(n.targets[0]) == 'self._active_tasks_list']
+    c.floor(rule, f'{gt.fq} :: rebuild of the cached list', len(rebuild), 1)
+    for n in rebuild:
+        c.guard_only(rule, n, ['self.active_tasks_changed'], gt)
+        c.ob(rule, c.key(n, gt) + ' from self.active_tasks', any(
+            isinstance(x, ast.comprehension) and norm(x.iter) ==
+            'self.active_tasks.values()' for x in ast.walk(n.value)),
+            c.where(n, gt), '')
+    c.who_writes(rule, 'active_tasks_changed', {
+        (f'{TP}:TaskPool.__init__', 'assign'),
+        (f'{TP}:TaskPool.get_tasks', 'assign'),
+        (f'{TP}:TaskPool._swap_out', 'assign'),
+        (f'{TP}:TaskPool.add_to_pool', 'assign'),
+        (f'{TP}:TaskPool.remove', 'assign'),
+    }, floor=5)
+    for s in c.stores(None, 'active_tasks_changed'):
+        f = c.owner(s.node)
+        if norm(s.value) == 'False' and f is not None and f.fq not in (
+                f'{TP}:TaskPool.__init__', f'{TP}:TaskPool.get_tasks'):
+            c.ob(rule, c.key(s.node, f) + ' [flag cleared]', False,
+                 c.where(s.node, f), 'the flag is cleared outside get_tasks')
+    changes = pool_membership_change(c)
+    flag = c.assigns('self.active_tasks_changed', 'True')
+
+    def reads(n):
+        return self_call(n) and n.func.attr in readers
+    n_mut = 0
+    for f in cls.methods.values():
+        muts = [s for s in c.idx.walk(f.node) if changes(s)]
+        if not muts:
+            continue
+        cfg = c.cfg(f)
+        for s in muts:
+            n_mut += 1
+            c.post(rule, f, s, flag, 'active_tasks_changed = True')
+            starts = []
+            for k in cfg.keys.get(id(s), []):
+                starts.extend(cfg.succ[k])
+            seen = cfg._reach(starts, lambda k: stmt_has(cfg.stmt[k], flag))
+            stale = []
+            for k in seen:
+                if not isinstance(k, tuple):
+                    continue
+                st = cfg.stmt[k]
+                if stmt_has(st, flag):
+                    continue
+                if stmt_has(st, reads):
+                    stale.append(st)
+            c.ob(rule, c.key(s, f) + ' no read of the cached pool list '
+                 'before the invalidation', not stale, c.where(s, f),
+                 '; '.join(f'{norm(x)[:60]} (line {int(x.lineno)}) runs on '
+                           'the stale list' for x in stale[:3]))
+    c.floor(rule, 'membership changes of active_tasks', n_mut, 3)
+
+
+def job_prep_writer_rules(c, rule):
+    """A task marked `waiting_on_job_prep` is handed to job submission by
+    release_tasks_to_run without going through the queue or the readiness
+    test again -- so also without the `is_held` tests made there.  The mark
+    may only be set where the task has just passed those tests (queue
+    release), was triggered by the user (exempt), or had already been
+    submitted (retry after a 255 failure; restart of a manually triggered
+    task)."""
+    from sa.core import norm
+    TP, TJM, S = 'task_pool', 'task_job_mgr', 'scheduler'
+    wj = [s for s in c.stores(None, 'waiting_on_job_prep')
+          if norm(s.value) != 'False']
+    allow = {
+        f'{TP}:TaskPool.release_queued_tasks',
+        f'{TP}:TaskPool.queue_or_trigger',
+        f'{TJM}:TaskJobManager._submit_task_job_callback_255',
+        f'{S}:Scheduler.run_scheduler',
+    }
+    c.floor(rule, 'waiting_on_job_prep = True sites', len(wj), 4)
+    for s in wj:
+        f = c.owner(s.node)
+        fq = f.fq if f else '<module>'
+        c.ob(rule, c.key(s.node, f) + ' [waiting_on_job_prep]', fq in allow,
+             c.where(s.node, f), '' if fq in allow else
+             f'the task is sent straight to job preparation from {fq}: a '
+             'held (or otherwise not ready) task would be submitted')
+
+
+def pool_membership_change(c):
+    """Statement test: a task is put into / deleted from
+    `self.active_tasks[<point>]` -- directly, or through a local bound to the
+    per-point map (`m = self.active_tasks.setdefault(p, {})`, `m =
+    self.active_tasks[p]`, `.get(p)`)."""
+    import ast
+    from sa import pat as _pat
+    inner = [_pat.parse_pat(x)[0] for x in (
+        'self.active_tasks[_]', 'self.active_tasks.setdefault(_, _)',
+        'self.active_tasks.get(_)', 'self.active_tasks.get(_, _)')]
+
+    def is_inner(e, fnode):
+        if any(_pat.match(p, e, c.env(e)) for p in inner):
+            return True
+        if isinstance(e, ast.Name) and fnode is not None:
+            for a in ast.walk(fnode):
+                if isinstance(a, ast.Assign) and any(
+                        isinstance(t, ast.Name) and t.id == e.id
+                        for t in a.targets) and any(_pat.match(
+                            p, a.value, c.env(a.value)) for p in inner):
+                    return True
+        return False
+
+    def is_member(n):
+        if not isinstance(n, ast.Subscript):
+            return False
+        f = c.owner(n)
+        return is_inner(n.value, f.node if f is not None else None)
+
+    def changes(s):
+        if isinstance(s, ast.Assign):
+            return any(is_member(t) for t in s.targets)
+        return isinstance(s, ast.Delete) and any(
+            is_member(t) for t in s.targets)
+    return changes
+
+
+# ---- values of locals (followed to their nearest definitions)
+def _expand_val(v, i):
+    """[(tests, expr)] for a value (its element i when unpacked)."""
+    if isinstance(v, ast.IfExp):
+        a, b = _expand_val(v.body, i), _expand_val(v.orelse, i)
+        if a is None or b is None:
+            return None
+        return [([(v.test, True)] + cs, e) for cs, e in a] + [
+            ([(v.test, False)] + cs, e) for cs, e in b]
+    if i is None:
+        return [([], v)]
+    if isinstance(v, ast.Tuple) and i < len(v.elts):
+        return [([], v.elts[i])]
+    return None
+
+
+def _defs_in(s, name):
+    """Alternatives when statement s (re)defines the local; False when it
+    does not touch it; None when it does in a way that is not followed."""
+    if isinstance(s, ast.Assign):
+        for t in s.targets:
+            if isinstance(t, ast.Name) and t.id == name:
+                r = _expand_val(s.value, None)
+                # `v = f(v)`: the old value is the name itself
+                return r
+            if isinstance(t, ast.Tuple):
+                for i, e in enumerate(t.elts):
+                    if isinstance(e, ast.Name) and e.id == name:
+                        return _expand_val(s.value, i)
+        return False
+    if not any(isinstance(n, ast.Name) and n.id == name and isinstance(
+            n.ctx, ast.Store) for n in ast.walk(s)):
+        return False
+    if isinstance(s, ast.If):
+        a, b = _last_def(s.body, name), _last_def(s.orelse, name)
+        if a is None or b is None:
+            return None
+        keep = [([], ast.Name(id=name, ctx=ast.Load()))]
+        a = keep if a is False else a
+        b = keep if b is False else b
+        return [([(s.test, True)] + cs, e) for cs, e in a] + [
+            ([(s.test, False)] + cs, e) for cs, e in b]
+    return None
+
+
+def _last_def(block, name):
+    for s in reversed(block):
+        r = _defs_in(s, name)
+        if r is False:
+            continue
+        return r
+    return False
+
+
+def value_alts(c, f, expr, at):
+    """[(tests, expr)]: what the expression (a local: its nearest
+    definitions before statement `at`) may be, each with the (test node,
+    polarity) pairs it is taken under; None when not followed."""
+    if not isinstance(expr, ast.Name):
+        return [([], expr)]
+    cur = c.idx.stmt_of(at)
+    while cur is not f.node and id(cur) in c.idx.parent:
+        par = c.idx.parent[id(cur)]
+        for field in ('body', 'orelse', 'finalbody'):
+            blk = getattr(par, field, None)
+            if isinstance(blk, list) and any(x is cur for x in blk):
+                i = [k for k, x in enumerate(blk) if x is cur][0]
+                r = _last_def(blk[:i], expr.id)
+                if r is not False:
+                    return r
+        cur = par
+    return [([], expr)]         # a parameter
+
+
+def enclosing_tests(c, f, node):
+    """(test, polarity) of the `if`s the node sits in."""
+    out = []
+    cur = c.idx.stmt_of(node)
+    while cur is not f.node and id(cur) in c.idx.parent:
+        par = c.idx.parent[id(cur)]
+        if isinstance(par, ast.If):
+            if any(x is cur for x in par.body):
+                out.append((par.test, True))
+            elif any(x is cur for x in par.orelse):
+                out.append((par.test, False))
+        cur = par
+    return out
+
+
+def compatible_tests(cs1, cs2):
+    return not any(t1 is t2 and p1 != p2 for t1, p1 in cs1 for t2, p2 in cs2)
+
+
+def resolved(c, f, expr, at):
+    """The expression a (possibly hoisted) argument stands for: a local with
+    exactly one nearest definition is replaced by it (one step), anything
+    else is returned as is."""
+    import ast
+    if isinstance(expr, ast.Name):
+        al = value_alts(c, f, expr, at)
+        if al and len(al) == 1 and al[0][1] is not expr:
+            return al[0][1]
+    return expr
+
+
+def rewrite_live_source_rules(c, rule, single, rewrite):
+    """The value the table wipe re-inserts for a key that is maintained at
+    run time must be read from the state the run-time writer keeps current:
+    every function that calls the single-key writer with a value (not the
+    literal None) also stores the attribute the rewrite reads.  (A rewrite
+    fed from a start-up option that the commands do not update would put a
+    stale value back on reload.)"""
+    for key in sorted(single):
+        if key not in rewrite or key == 'KEY_RESTART_COUNT':
+            continue
+        v = rewrite[key]
+        attrs = set()
+        if v is not None:
+            for n in ast.walk(v):
+                if isinstance(n, ast.Attribute) and not isinstance(
+                        c.idx.parent.get(id(n)), ast.Attribute):
+                    attrs.add(n.attr)
+            if isinstance(v, ast.Name) or any(
+                    isinstance(n, ast.Call) and norm(n.func) == 'getattr'
+                    for n in ast.walk(v)) or not attrs:
+                # for key in (...): value = getattr(schd.options, key, None)
+                kv = c.K.class_attr('WorkflowDatabaseManager', key)
+                if isinstance(kv, str):
+                    attrs = {kv}
+        w = single[key]
+        sites = [n for n in c.calls(None, w.name)
+                 if c.owner(n) is not None and c.owner(n).fq != w.fq]
+        for n in sites:
+            if n.args and isinstance(n.args[0], ast.Constant) and \
+                    n.args[0].value is None:
+                continue
+            f = c.owner(n)
+            stored = {x.attr for x in ast.walk(f.node) if isinstance(
+                x, ast.Attribute) and isinstance(x.ctx, ast.Store)}
+            # one level of self.<m>() callees (set_stop_clock -> ...)
+            ok = bool(attrs & stored)
+            c.ob(rule, c.key(n, f)[:90] + f' keeps {sorted(attrs)} (what the '
+                 f'table rewrite reads for {key}) current', ok, c.where(n, f),
+                 '' if ok else f'the rewrite of workflow_params re-inserts '
+                 f'{key} from {norm(v) if v is not None else "?"}, which '
+                 f'{f.fq} does not update: a reload puts a stale value back')
